@@ -434,6 +434,84 @@ func oracleC01(r *Run, a [][]byte) {
 	}
 	// C07 wire validator on every encoding produced
 	validateWire(r, p, wire, cs)
+	flatRecordCheck(r, p, wire, cs)
+}
+
+// flatRecordCheck: the same packet value assembled the way a server assembles it from one flat lease record or a
+// captured frame - hardware address, addresses and option values are adjacent sub-slices of ONE array, each with
+// spare capacity reaching into its neighbours - encodes to the same octets, and encoding writes nothing into the
+// record.
+func flatRecordCheck(r *Run, p *dhcpv4.DHCPv4, want []byte, cs string) {
+	for layout := 0; layout < 2; layout++ {
+		type span struct {
+			off, n int
+			null   bool
+		}
+		var rec []byte
+		put := func(b []byte) span {
+			s := span{len(rec), len(b), b == nil}
+			rec = append(rec, b...)
+			return s
+		}
+		codes := make([]int, 0, len(p.Options))
+		for c := range p.Options {
+			codes = append(codes, int(c))
+		}
+		sort.Ints(codes)
+		optSp := map[int]span{}
+		putOpts := func() {
+			for _, c := range codes {
+				optSp[c] = put(p.Options[uint8(c)])
+			}
+		}
+		if layout == 1 {
+			putOpts()
+		}
+		hw := put(p.ClientHWAddr)
+		var ips [4]span
+		if layout == 0 {
+			for i, ip := range []net.IP{p.ClientIPAddr, p.YourIPAddr, p.ServerIPAddr, p.GatewayIPAddr} {
+				ips[i] = put(ip)
+			}
+			putOpts()
+		} else {
+			for i, ip := range []net.IP{p.GatewayIPAddr, p.ServerIPAddr, p.YourIPAddr, p.ClientIPAddr} {
+				ips[3-i] = put(ip)
+			}
+		}
+		arr := make([]byte, len(rec)+40)
+		copy(arr, rec)
+		for i := len(rec); i < len(arr); i++ {
+			arr[i] = 0xa5
+		}
+		snap := append([]byte{}, arr...)
+		sub := func(s span) []byte {
+			if s.null {
+				return nil
+			}
+			return arr[s.off : s.off+s.n]
+		}
+		q := *p
+		q.ClientHWAddr = sub(hw)
+		q.ClientIPAddr, q.YourIPAddr, q.ServerIPAddr, q.GatewayIPAddr = sub(ips[0]), sub(ips[1]), sub(ips[2]), sub(ips[3])
+		q.Options = dhcpv4.Options{}
+		for _, c := range codes {
+			q.Options[uint8(c)] = sub(optSp[c])
+		}
+		var w []byte
+		func() {
+			defer func() { recover() }()
+			w = q.ToBytes()
+		}()
+		if !bytes.Equal(w, want) {
+			r.Fail("encoding-of-packet-built-from-one-record", cs, "the same packet value whose fields are adjacent sub-slices of one array encodes differently: "+firstDiff(hx(want), hx(w)))
+			return
+		}
+		if !bytes.Equal(arr, snap) {
+			r.Fail("encoding-writes-into-the-packet", cs, "ToBytes wrote into the memory behind a field of the packet it encodes (fields given as sub-slices with spare capacity): "+firstDiff(hx(snap), hx(arr)))
+			return
+		}
+	}
 }
 
 // validateWire: C07 (a)-(c) with the independent decoder.
@@ -570,6 +648,26 @@ func genC01(r *Run) {
 			}
 		}
 	}
+	// every option code 1..254 with an empty value, every interesting one-octet value and a two-octet value, in a
+	// packet whose server name and boot file are present (plain names, and names whose octets would read as an option
+	// stream): no code's value changes how the rest of the packet is read
+	for c := 1; c <= 254; c++ {
+		for vi, v := range [][]byte{{}, {0}, {1}, {2}, {3}, {4}, {0xff}, {1, 1}} {
+			a := r.randPkt(map[byte][]byte{byte(c): v})
+			switch (c + vi) % 3 {
+			case 0:
+				a[11], a[12] = []byte("srv.example"), []byte("pxelinux.0")
+			case 1:
+				a[11], a[12] = []byte("\x0c\x04host\xff"), []byte("\x0c\x04boot\xff")
+			default:
+				a[11], a[12] = r.noNul(1+r.Rng.Intn(63)), r.noNul(1+r.Rng.Intn(127))
+			}
+			if vi < 2 || c%16 == 4 {
+				r.Add(eV4EncDec, a...)
+			}
+			oracleC01(r, a)
+		}
+	}
 	// chaddr lengths 0..16 in the domain, 17, 20, 255, 256 outside it (pins the model's out-of-domain behaviour)
 	for _, hl := range []int{0, 1, 2, 3, 4, 5, 6, 7, 8, 9, 10, 11, 12, 13, 14, 15, 16, 17, 20, 255, 256} {
 		a := r.randPkt(r.randOpts(3, 40))
@@ -670,6 +768,34 @@ func oracleC04(r *Run, b []byte) {
 		r.Count("accepted")
 		if d := compareRef(p, ref); d != "" {
 			r.Fail("field-"+d, trunc(cs, 3000), "decoded field differs from the RFC reading: "+d)
+			return
+		}
+		// each decoding yields its own value: what a caller then does to the packet it was given (a relay adding
+		// option 82, a server turning the request into its reply) does not show in a later decoding of the same octets
+		func() {
+			defer func() { recover() }()
+			p.UpdateOption(dhcpv4.OptGeneric(dhcpv4.GenericOptionCode(82), []byte{1, 1, 7}))
+			p.UpdateOption(dhcpv4.OptMessageType(dhcpv4.MessageTypeNak))
+			p.UpdateOption(dhcpv4.OptGeneric(dhcpv4.GenericOptionCode(224), []byte("scribble")))
+			for c := range p.Options {
+				if c != 82 && c != 53 && c != 224 {
+					delete(p.Options, c)
+					break
+				}
+			}
+			p.OpCode, p.HopCount = dhcpv4.OpcodeBootReply, p.HopCount+1
+			if len(p.ClientHWAddr) > 0 {
+				p.ClientHWAddr[0] ^= 0xff
+			}
+			if len(p.YourIPAddr) > 0 {
+				p.YourIPAddr[len(p.YourIPAddr)-1] ^= 0xff
+			}
+			p.TransactionID[0] ^= 0xff
+		}()
+		if q, err2 := dhcpv4.FromBytes(append([]byte{}, b...)); err2 != nil {
+			r.Fail("decode-after-edit-of-earlier-result", trunc(cs, 3000), "the same octets are rejected once an earlier decoded packet has been edited: "+err2.Error())
+		} else if d := compareRef(q, ref); d != "" {
+			r.Fail("decode-after-edit-of-earlier-result", trunc(cs, 3000), "after the packet decoded from these octets was edited, decoding them again gives a packet that differs from the RFC reading: "+d)
 		}
 	} else {
 		r.Count("rejected")
@@ -916,6 +1042,48 @@ func genC07(r *Run) {
 				if pi%97 == 0 && t == 0 {
 					r.Add(eV4Enc, a...)
 				}
+			}
+		}
+	}
+	// large option sets (a relayed reply to a client that asked for everything): 7 .. 120 distinct codes, with and
+	// without 82, with codes on both sides of it, and the full set 1..254; several insertion orders each
+	for i := 0; i < r.N(60, 1500); i++ {
+		k := r.Pick(7, 12, 13, 14, 16, 20, 33, 50, 64, 65, 120, 254)
+		pool := r.Rng.Perm(254)
+		var codes []byte
+		for _, x := range pool[:k] {
+			codes = append(codes, byte(x+1))
+		}
+		if i%3 != 0 && k < 254 {
+			has := false
+			for _, c := range codes {
+				has = has || c == 82
+			}
+			if !has {
+				codes[0] = 82
+			}
+			codes[1] = byte(83 + r.Rng.Intn(172)) // something above 82 (a repeated code just overwrites)
+		}
+		vals := map[byte][]byte{}
+		for _, c := range codes {
+			vals[c] = r.Bytes(r.Pick(0, 1, 1, 2, 4, 4, 6, 20))
+		}
+		base := r.randPkt(nil)
+		var want []byte
+		for t := 0; t < 4; t++ {
+			a := append([][]byte{}, base...)
+			for _, j := range r.Rng.Perm(len(codes)) {
+				a = append(a, []byte{codes[j]}, vals[codes[j]])
+			}
+			p := pktOfArgs(a)
+			w := p.ToBytes()
+			evals++
+			if want == nil {
+				want = w
+				r.Add(eV4Enc, a...)
+				validateWire(r, p, w, trunc(Case{eV4Enc, a}.Line(), 3000))
+			} else if !bytes.Equal(w, want) {
+				r.Fail("c07-order-dependent", trunc(Case{eV4Enc, a}.Line(), 3000), "same contents, different bytes for a different insertion order: "+firstDiff(hx(want), hx(w)))
 			}
 		}
 	}
